@@ -151,6 +151,7 @@ class SiteIndex:
     def __init__(self, table):
         self.by_line = collections.defaultdict(set)     # (file,line) -> {(field, write)}
         self.spans = []                                  # (file, l0, l1, entry)
+        self.kinds = table.get("field_kinds") or {}
         for r in table["rows"]:
             for s in r["sites"]:
                 self.by_line[(s["file"], s["line"])].add((r["field"], r["write"]))
@@ -196,10 +197,24 @@ def classify_reports(reports, idx):
         # the writing access must sit on a write site of the field; a read may sit on either
         pick = lambda fs, acc: {f for f, w in fs if w or not acc["write"]}
         fields = pick(fa, a) & pick(fb, b)
+        how = "both accesses sit on indexed sites of the field"
+        ismap = lambda acc: bool(acc["frames"]) and acc["frames"][0][0].startswith("runtime.map")
+        if ea and eb and ismap(a) and ismap(b):
+            # both sides are inside the runtime's map code, so the contended memory is a map object: only
+            # map-typed fields can be meant.  When just one side sits on an indexed site of a map-typed field,
+            # the other side reaches that same map through an alias the translator did not see (a local
+            # variable, a returned map).
+            ma = {f for f in pick(fa, a) if idx.kinds.get(f) == "map"}
+            mb = {f for f in pick(fb, b) if idx.kinds.get(f) == "map"}
+            if ma & mb:
+                fields = ma & mb
+            elif bool(ma) != bool(mb):
+                fields = ma or mb
+                how = "one access sits on an indexed site of the map, the other is inside the runtime map code on the same map (alias)"
         top = lambda acc: next(((rel_path(f), fn.split("/")[-1]) for fn, f, l in acc["frames"] if rel_path(f) and not rel_path(f).startswith("internal/verifh/")), (None, None))
         if fields and ea and eb:
             for f in sorted(fields):
-                attributed.append({"entries": (ea, eb), "field": f, "sites": (sa, sb), "raw": rep["raw"]})
+                attributed.append({"entries": (ea, eb), "field": f, "sites": (sa, sb), "raw": rep["raw"], "how": how})
                 confirmed.setdefault(edge(ea, eb, f), rep["raw"])
         else:
             ta, tb = top(a), top(b)
@@ -247,7 +262,9 @@ TRUSTED = [
 
 
 def check(run):
-    n = 300 if run.tier == "quick" else 2000
+    # short rounds: on the unchanged tree a longer run usually ends early in Go's fatal
+    # "concurrent map iteration and map write" (finding F20z), which hides what would come after
+    n = 300 if run.tier == "quick" else 400
     # Coq development (family Lockset) must be compiled before the property file / generated table
     rc, out = C.coq_make(only=["Base", "Lockset", "Properties/C18.v"], tag="c18", timeout=1500)
     if rc != 0:
@@ -273,7 +290,7 @@ def check(run):
     binary = C.go_build("c18", race=True)
     idx = SiteIndex(table)
     confirmed, attributed, other, crashes, scen = {}, [], collections.Counter(), [], []
-    rounds = 4 if run.tier == "quick" else 12
+    rounds = 4 if run.tier == "quick" else 40
     for k in range(rounds):
         cases, reports, crashed = run_race_harness(run, binary, run.seed * 1000 + k, n, "%s_%d" % (run.tier, k))
         cf, at, ot = classify_reports(reports, idx)
@@ -282,7 +299,7 @@ def check(run):
         attributed += at
         other.update(ot)
         if crashed:
-            crashes.append(crashed)
+            crashes.append((k, crashed))
         for c in cases:
             if isinstance(c.get("obs"), dict) and "error" in c["obs"]:
                 run.failing({"kind": "harness-case-error"}, [c], "the race harness could not run its scenario: %s" % c["obs"]["error"][:300],
@@ -334,14 +351,20 @@ def check(run):
                         [{"entry": k[0], "against": k[1], "field": k[2], "sites": at["sites"], "race_report": at["raw"], "seed": run.seed * 1000, "iter": n}],
                         "the race detector reports a race on %s between %s and %s, which the access table considers protected: translator or entry list unsound here"
                         % (k[2], k[0], k[1]), theorem="translator c18t vs race detector")
-    for cr in crashes:
-        run.notes.append("race harness process died: %s" % cr)
+    # the process dying is an observable of its own (the property names it): Go's map implementation
+    # throws an unrecoverable fatal error when it notices concurrent access
+    for k, cr in crashes:
+        m = re.match(r'fatal error: (concurrent map [a-z ]+)', cr)
+        err = m.group(1).strip() if m else "other"
+        run.failing({"kind": "process-crash", "error": err}, [{"seed": run.seed * 1000 + k, "iter": n, "error": cr}],
+                    "the controller process (race harness) died: %s" % cr, theorem="race harness c18")
+        run.notes.append("race harness round %d died: %s" % (k, cr))
     fmt = lambda k: "%s / %s / %s" % k
     run.cov["race_harness"] = {"rounds": rounds, "ops_per_round": n, "reports_attributed_to_table_edges": len(attributed),
                                "edges_exhibited": sorted(fmt(k) for k in confirmed if k in edges),
                                "edges_in_table_not_exhibited_in_this_run": sorted(fmt(k) for k in edges if k not in confirmed),
                                "other_reports_not_on_indexed_sites": dict(other.most_common(12)),
-                               "process_crashes": crashes}
+                               "process_crashes": [c for _, c in crashes]}
     for c in scen[:2]:
         run.sample(c)
     for k, d in list(edges.items())[:2]:
